@@ -412,4 +412,13 @@ func (group *Group) delIn() {
 	group.stat.VideoCodec = ""
 	group.stat.VideoWidth = 0
 	group.stat.VideoHeight = 0
+
+	// subscribers that stay attached must not keep waiting for a video key frame of the input that left: the next
+	// input may carry no video at all (same rule as for subscribers that join while the stream has no video)
+	for s := range group.rtmpSubSessionSet {
+		s.ShouldWaitVideoKeyFrame = false
+	}
+	for s := range group.httpflvSubSessionSet {
+		s.ShouldWaitVideoKeyFrame = false
+	}
 }
